@@ -9,6 +9,7 @@ import (
 
 	"github.com/ThreeDotsLabs/watermill"
 	"github.com/ThreeDotsLabs/watermill/message"
+	"github.com/ThreeDotsLabs/watermill/verifhook"
 )
 
 const RetriesKey = "_watermill_requeuer_retries"
@@ -144,6 +145,7 @@ func (r *Requeuer) handler(msg *message.Message) error {
 
 	msg.Metadata.Set(RetriesKey, strconv.Itoa(retries))
 
+	verifhook.At("requeuer.handler.before_publish", msg.UUID)
 	err = r.config.Publisher.Publish(topic, msg)
 	if err != nil {
 		return err
